@@ -195,6 +195,23 @@ class Setup:
                     pass
             if first_region is not region:
                 cat.region = region
+        if pre & 4 and region is not None and len(obs):
+            # the catalog object is first handed to a forecast on ANOTHER region (one far-away cell, another magnitude grid), which
+            # refuses it - every event lies outside that region.  Not judged; the catalog must be none the worse for it.
+            try:
+                from csep.core.forecasts import GriddedForecast
+                from csep.core.regions import CartesianGrid2D
+                far = CartesianGrid2D.from_origins(numpy.array([[float(self.L.ex[0]) - 40.0, float(self.L.ey[0]) * 0.25]]), dh=self.L.fdh,
+                                                   magnitudes=numpy.array([e + 0.4 * self.hm for e in self.edges]))
+                ff = GriddedForecast(start_time=T0, end_time=T1, data=numpy.ones((1, self.nm)), region=far, magnitudes=far.magnitudes, name="far")
+            except Exception:  # noqa: BLE001
+                return cat
+            for g in (lambda: ff.target_event_rates(cat), lambda: ff.target_event_rates(cat, scale=True),
+                      lambda: ff.get_rates(cat.get_longitudes(), cat.get_latitudes(), cat.get_magnitudes())):
+                try:
+                    g()
+                except Exception:  # noqa: BLE001
+                    pass
         return cat
 
     def counts(self, obs=None):
